@@ -158,3 +158,12 @@ package req
 //@   ensures cast("*socket", result).defCtx.closed == false
 //@
 // ---- end generated default contracts ----
+//@
+//@ func (*context).cancelSend
+//@   ensures !c.queued
+//@
+//@ func (*context).cancel
+//@   ensures !c.queued
+//@
+//@ func (*socket).RemovePipe
+//@   loop 2 ensures c.failNoPeers && len(s.pipes) == 0 ==> !c.queued && c.reqMsg == nil && c.reqID == 0
